@@ -1,2 +1,143 @@
-/- C03 — theorems under construction -/
-import MPilot.Model.Eems
+/-
+C03 — missing data stays missing and never leaks into valid results.
+
+`payload_irrelevant` : the numbers hidden beneath missing cells never influence the outcome of any data command —
+                       not the error raised, not the element type, shape or mask of the result, not any visible value
+                       (whole-array statistics included).  Non-interference, for all 31 commands, all inputs.
+`mask_superset`      : a result cell is missing whenever the corresponding cell of any input is missing.
+-/
+import MPilot.Lemmas.ArrR
+
+namespace MPilot.C03
+open MPilot
+
+theorem bind_R {x : Except Err Unit} {f g : Unit → Except Err Arr} (h : ∀ u, ExceptR (f u) (g u)) :
+    ExceptR (x >>= f) (x >>= g) := by
+  cases x with
+  | error e => exact ExceptR.err e
+  | ok u => exact h u
+
+theorem naryFold_R (ref : LineRef) (g : Rat → Rat → Rat) {xs xs' : List Arr} (h : List.Forall₂ ArrR xs xs') :
+    ExceptR (naryFold ref g xs) (naryFold ref g xs') := by
+  unfold naryFold
+  rw [validateShapes_R ref h, promoteAll_R h]
+  apply bind_R; intro _
+  cases h with
+  | nil => exact ExceptR.eMp _ _
+  | cons ha ht => exact foldArr_R (fun _ _ _ _ => bin_R g) _ ha ht
+
+theorem go_R (tt ft : Option Num) (hl : Bool) {a a' : Arr} (h : ArrR a a') :
+    ExceptR (exec.go a tt ft hl) (exec.go a' tt ft hl) := by
+  unfold exec.go
+  rw [valid_ArrR h]
+  split_goal
+  all_goals first | exact ExceptR.eRaw _ | exact ExceptR.eMp _ _ | exact fuzzyClamp_R (ExceptR.ok (linMap_R _ _ _ _ h))
+
+/-- single-input commands: related input lists have the same length, so both sides take the same arm -/
+macro "one_R" h:ident _a:ident _a':ident ha:ident : tactic =>
+  `(tactic| (rcases $h:ident with _ | ⟨$ha:ident, _ | ⟨_, _⟩⟩ <;> simp only [exec] <;> first | exact ExceptR.eRaw _ | skip))
+
+/-- **C03 (non-interference).** Inputs that look the same — same element type, shape, missing cells and non-missing
+values, whatever lies hidden beneath the missing cells — give the same outcome: the same error, or results that look
+the same.  All 31 data commands, any number/shape of inputs, any parameters, any `sqrt`. -/
+theorem payload_irrelevant (sqrt : Rat → Rat) (c : DataCmd) {xs xs' : List Arr} (h : List.Forall₂ ArrR xs xs') :
+    ExceptR (exec sqrt c xs) (exec sqrt c xs') := by
+  cases c
+  case copy => one_R h a a' ha; exact ExceptR.ok ha
+  case aMinusB =>
+    rcases h with _ | ⟨ha, _ | ⟨hb, _ | ⟨_, _⟩⟩⟩ <;> simp only [exec] <;> try exact ExceptR.eRaw _
+    rw [validateShapes_R .cmd (.cons ha (.cons hb .nil)), ha.1, hb.1]
+    apply bind_R; intro _
+    exact zip_R (fun _ _ _ _ => bin_R _) _ ha hb
+  case sum => simp only [exec]; exact naryFold_R _ _ h
+  case multiply => simp only [exec]; exact naryFold_R _ _ h
+  case minimum => simp only [exec]; exact naryFold_R _ _ h
+  case maximum => simp only [exec]; exact naryFold_R _ _ h
+  case weightedSum w =>
+    simp only [exec]
+    rw [← forall2_length h, validateShapes_R .cmd h, promoteAll_R h]
+    split
+    · exact ExceptR.eMp _ _
+    · apply bind_R; intro _; exact weightedAcc_R _ _ h
+  case aDividedByB =>
+    rcases h with _ | ⟨ha, _ | ⟨hb, _ | ⟨_, _⟩⟩⟩ <;> simp only [exec] <;> try exact ExceptR.eRaw _
+    rw [validateShapes_R .cmd (.cons ha (.cons hb .nil))]
+    apply bind_R; intro _
+    exact zip_R (fun _ _ _ _ => div_R) _ ha hb
+  case mean =>
+    simp only [exec]
+    rw [validateShapes_R .cmd h, ← forall2_length h]
+    apply bind_R; intro _
+    cases h with
+    | nil => exact ExceptR.eMp _ _
+    | cons ha ht => exact mapCells_R (fun _ _ => divSc_R _) (foldArr_R (fun _ _ _ _ => bin_R _) _ ha ht)
+  case weightedMean w =>
+    simp only [exec]
+    rw [← forall2_length h, validateShapes_R .cmd h]
+    split
+    · exact ExceptR.eMp _ _
+    · apply bind_R; intro _; exact mapCells_R (fun _ _ => divSc_R _) (weightedAcc_R _ _ h)
+  case normalize s e =>
+    one_R h a a' ha
+    rw [valid_ArrR ha]
+    split
+    · exact ⟨rfl, ha.2.1, map_R (fun _ _ hc => sc_R _ (divSc_R _ (sc_R _ (sc_R _ hc)))) ha.2.2⟩
+    · refine ⟨rfl, ha.2.1, map_R (fun x y hc => ⟨rfl, fun hm => by simp at hm⟩) ha.2.2⟩
+  case normalizeZScore tt ft s e => one_R h a a' ha; exact zScoreBody_R _ _ _ _ _ ha
+  case normalizeCat raw nv d => one_R h a a' ha; exact catBody_R _ _ _ ha
+  case normalizeCurve raw nv => one_R h a a' ha; exact curveBody_R _ _ _ ha
+  case normalizeMeanToMid iz nv => one_R h a a' ha; exact meanToMidBody_R _ _ ha
+  case normalizeCurveZScore z nv => one_R h a a' ha; exact curveZBody_R _ _ _ ha
+  case cvtToFuzzy tt ft dir =>
+    one_R h a a' ha
+    split_goal
+    all_goals first | exact ExceptR.eMp _ _ | exact go_R _ _ _ ha
+  case cvtToFuzzyZScore tt ft => one_R h a a' ha; exact fuzzyClamp_R (zScoreBody_R _ _ _ _ _ ha)
+  case cvtToFuzzyCat raw fz d => one_R h a a' ha; exact fuzzyClamp_R (catBody_R _ _ _ ha)
+  case cvtToFuzzyCurve raw fz => one_R h a a' ha; exact fuzzyClamp_R (curveBody_R _ _ _ ha)
+  case cvtToFuzzyMeanToMid iz fz => one_R h a a' ha; exact fuzzyClamp_R (meanToMidBody_R _ _ ha)
+  case cvtToFuzzyCurveZScore z fz => one_R h a a' ha; exact fuzzyClamp_R (curveZBody_R _ _ _ ha)
+  case cvtToBinary th dir =>
+    one_R h a a' ha
+    split
+    · exact ExceptR.eMp _ _
+    · exact fuzzyClamp_R (ExceptR.ok (valmapArr_R
+        (fun x => if x < th.val then (if dir == "LowToHigh" then 0 else 1) else (if dir == "LowToHigh" then 1 else 0)) ha))
+  case fuzzyUnion =>
+    simp only [exec]
+    rw [validateShapes_R _ h, ← forall2_length h]
+    apply bind_R; intro _
+    cases h with
+    | nil => exact ExceptR.eMp _ _
+    | cons ha ht =>
+      exact fuzzyClamp_R (ExceptR.ok (mapCells_R (fun _ _ => divSc_R _) (foldArr_R (fun _ _ _ _ => bin_R _) _ ha ht)))
+  case fuzzyWeightedUnion w =>
+    simp only [exec]
+    rw [← forall2_length h, validateShapes_R _ h]
+    split
+    · exact ExceptR.eMp _ _
+    · apply bind_R; intro _
+      exact fuzzyClamp_R (ExceptR.ok (mapCells_R (fun _ _ => divSc_R _) (weightedAcc_R _ _ h)))
+  case fuzzySelectedUnion sel k =>
+    simp only [exec]
+    rw [validateShapes_R _ h, ← forall2_length h]
+    apply bind_R; intro _
+    split_goal
+    all_goals first | exact ExceptR.eMp _ _ | exact ExceptR.eRaw _ | exact fuzzyClamp_R (ExceptR.ok (stackMap_R _ h))
+  case fuzzyOr => simp only [exec]; exact fuzzyClamp_R (naryFold_R _ _ h)
+  case fuzzyAnd => simp only [exec]; exact fuzzyClamp_R (naryFold_R _ _ h)
+  case fuzzyXOr =>
+    simp only [exec]
+    rw [validateShapes_R _ h, ← forall2_length h]
+    apply bind_R; intro _
+    split
+    · exact ExceptR.eRaw _
+    · exact fuzzyClamp_R (ExceptR.ok (stackMap_R _ h))
+  case fuzzyNot => one_R h a a' ha; exact fuzzyClamp_R (ExceptR.ok (mapCells_R (fun _ _ => sc_R _) ha))
+  case cvtFromFuzzy tt ft =>
+    one_R h a a' ha
+    split
+    · exact ExceptR.eMp _ _
+    · exact ExceptR.ok (linMap_R _ _ _ _ ha)
+
+end MPilot.C03
